@@ -473,6 +473,11 @@ func exec(spec string) (res engine.Result) {
 	if !strings.HasPrefix(hist[0], "cfg:") {
 		return // only a configuration choice is applicable at the root
 	}
+	for _, o := range hist[1:] {
+		if strings.HasPrefix(o, "cfg:") {
+			return // a second configuration choice is not applicable (checked before any replay work)
+		}
+	}
 	cfgID, lenStr, _ := strings.Cut(strings.TrimPrefix(hist[0], "cfg:"), "@")
 	cfgMaxLen, _ := strconv.Atoi(lenStr)
 	cfg := allConfigs[cfgID]
